@@ -252,6 +252,8 @@ type wfConfig struct {
 	lists    [][]uint32
 	timeouts []timeoutChoice
 	depth    map[string]int
+	// firstList is the index of the size-class list in force initially.
+	firstList int
 }
 
 type wfState struct {
@@ -520,7 +522,7 @@ var seeds = []seed{
 // The Seq
 
 func (cfg *wfConfig) newState(c *mc.SeqCtx) any {
-	s := &wfState{cfg: cfg, c: c, store: &seqStore{}, clock: &seqClock{now: epoch}, rng: &fixedRNG{}, fresh: true}
+	s := &wfState{cfg: cfg, c: c, store: &seqStore{}, clock: &seqClock{now: epoch}, rng: &fixedRNG{}, fresh: true, listIdx: cfg.firstList}
 	extractor := initialsizeclass.NewActionTimeoutExtractor(defaultExecutionTimeout, maximumExecutionTimeout)
 	switch cfg.analyzer {
 	case "pagerank":
@@ -761,14 +763,16 @@ func wfSeq(cfg *wfConfig) *mc.Seq {
 
 func wfSeqs() []*mc.Seq {
 	t60 := validTimeouts[:1]
+	depth := func(quick, thorough int) map[string]int { return map[string]int{"quick": quick, "thorough": thorough} }
 	cfgs := []*wfConfig{
-		{name: "wf-pagerank-1", analyzer: "pagerank", lists: allLists[0:1], timeouts: validTimeouts, depth: map[string]int{"quick": 6, "thorough": 8}},
-		{name: "wf-pagerank-1-2", analyzer: "pagerank", lists: allLists[1:2], timeouts: validTimeouts, depth: map[string]int{"quick": 7, "thorough": 10}},
-		{name: "wf-pagerank-1-2-4", analyzer: "pagerank", lists: allLists[2:3], timeouts: validTimeouts, depth: map[string]int{"quick": 7, "thorough": 10}},
-		{name: "wf-pagerank-1-2-4-8", analyzer: "pagerank", lists: allLists[3:4], timeouts: validTimeouts, depth: map[string]int{"quick": 7, "thorough": 10}},
-		{name: "wf-pagerank-changing-classes", analyzer: "pagerank", lists: allLists, timeouts: t60, depth: map[string]int{"quick": 6, "thorough": 9}},
-		{name: "wf-smallest", analyzer: "smallest", lists: allLists, timeouts: validTimeouts, depth: map[string]int{"quick": 6, "thorough": 9}},
-		{name: "wf-fallback", analyzer: "fallback", lists: allLists, timeouts: validTimeouts, depth: map[string]int{"quick": 6, "thorough": 9}},
+		{name: "wf-pagerank-1", analyzer: "pagerank", lists: allLists[0:1], timeouts: validTimeouts, depth: depth(6, 9)},
+		{name: "wf-pagerank-1-2", analyzer: "pagerank", lists: allLists[1:2], timeouts: validTimeouts, depth: depth(7, 10)},
+		{name: "wf-pagerank-1-2-4", analyzer: "pagerank", lists: allLists[2:3], timeouts: validTimeouts, depth: depth(6, 9)},
+		{name: "wf-pagerank-1-2-4-8", analyzer: "pagerank", lists: allLists[3:4], timeouts: validTimeouts, depth: depth(6, 9)},
+		// Size classes appear and disappear while actions execute; starts with [1 2].
+		{name: "wf-pagerank-changing-classes", analyzer: "pagerank", lists: allLists, timeouts: t60, depth: depth(6, 9), firstList: 1},
+		{name: "wf-smallest", analyzer: "smallest", lists: allLists, timeouts: validTimeouts, depth: depth(6, 9), firstList: 1},
+		{name: "wf-fallback", analyzer: "fallback", lists: allLists, timeouts: validTimeouts, depth: depth(6, 9), firstList: 1},
 	}
 	var seqs []*mc.Seq
 	for _, cfg := range cfgs {
